@@ -44,6 +44,7 @@ Variable tubid_of : cert -> id.
 
 Notation ev1 := (ev1_identity cert tubid_of).
 Notation evaluate := (evaluate cert tubid_of).
+Notation handle_hello := (handle_hello cert tubid_of).
 Notation session := (session cert tubid_of).
 Notation step := (step cert tubid_of).
 Notation run := (run cert tubid_of).
@@ -164,6 +165,48 @@ Proof.
       intros H0. inversion H0. subst t. rewrite list_eqb_refl in E. discriminate.
 Qed.
 
+(* ------------------------------------------------------------------ one end, from what the TLS peer presents:
+   identity = the LEAF certificate (the one whose key the handshake proves); extra certificates count for nothing *)
+Lemma handle_hello_leaf r me tgt p claimed :
+  handle_hello r me tgt p claimed =
+  match leaf p with Some c => evaluate r me tgt (Some c) claimed | None => Reject "CertificateError" end.
+Proof. unfold Identity.handle_hello, peer_from_transport. destruct peer_cert_choice. destruct (leaf p); reflexivity. Qed.
+
+Theorem handle_hello_bound r me tgt p claimed t m :
+  handle_hello r me tgt p claimed = Accept t m ->
+  exists crt, leaf p = Some crt /\ tubid_of crt = t /\ claimed = Some t /\ (r = Client -> t = tgt) /\ t <> [] /\
+              m = i_am_master me t.
+Proof.
+  rewrite handle_hello_leaf. destruct (leaf p) as [c|]; [|discriminate].
+  intros H. apply evaluate_bound in H. destruct H as (crt & Hc & H). inversion Hc; subst crt. exists c. auto.
+Qed.
+
+Theorem hello_key_proven r me tgt p claimed t m :
+  handle_hello r me tgt p claimed = Accept t m ->
+  exists crt, leaf p = Some crt /\ tubid_of crt = attach_key (is_client r) tgt t /\
+              (r = Client -> attach_key (is_client r) tgt t = tgt).
+Proof.
+  rewrite handle_hello_leaf. destruct (leaf p) as [c|]; [|discriminate].
+  intros H. apply attach_key_proven in H. destruct H as (crt & Hc & H). inversion Hc; subst crt. exists c. auto.
+Qed.
+
+Theorem mismatch_rejects_hello r me tgt p claimed :
+  mismatch r tgt (leaf p) claimed -> exists w, handle_hello r me tgt p claimed = Reject w.
+Proof.
+  intros Hm. rewrite handle_hello_leaf. destruct (leaf p) as [c|] eqn:E; [|eexists; reflexivity].
+  apply mismatch_rejects. exact Hm.
+Qed.
+
+Theorem consistent_accepts_hello r me tgt p crt :
+  leaf p = Some crt -> tubid_of crt <> [] -> (r = Client -> tubid_of crt = tgt) ->
+  handle_hello r me tgt p (Some (tubid_of crt)) = Accept (tubid_of crt) (i_am_master me (tubid_of crt)).
+Proof. intros Hl Hne Ht. rewrite handle_hello_leaf, Hl. apply consistent_accepts; assumption. Qed.
+
+(* the extra certificates a peer sends along never change the outcome *)
+Theorem extras_irrelevant r me tgt l e1 e2 claimed :
+  handle_hello r me tgt {| leaf := l; extras := e1 |} claimed = handle_hello r me tgt {| leaf := l; extras := e2 |} claimed.
+Proof. rewrite !handle_hello_leaf. reflexivity. Qed.
+
 (* ------------------------------------------------------------------ the listener *)
 Lemma server_lookup_ok requested my : server_lookup requested my = Ok tt <-> (requested = my /\ requested <> []).
 Proof.
@@ -185,8 +228,8 @@ Proof. discriminate. Qed.
    hashes to it; the client's key is the id it dialled; what is left at quiescence was registered *)
 Theorem session_bound s oc os :
   session s = (oc, os) ->
-  (forall k, ever oc = Some k -> k = dialled s /\ proven (cert_c s) k /\ claim_c s = Some k /\ requested s = srv_id s) /\
-  (forall k, ever os = Some k -> proven (cert_s s) k /\ claim_s s = Some k /\ requested s = srv_id s) /\
+  (forall k, ever oc = Some k -> k = dialled s /\ proven (leaf (pres_c s)) k /\ claim_c s = Some k /\ requested s = srv_id s) /\
+  (forall k, ever os = Some k -> proven (leaf (pres_s s)) k /\ claim_s s = Some k /\ requested s = srv_id s) /\
   (forall k, final oc = Some k -> ever oc = Some k) /\
   (forall k, final os = Some k -> ever os = Some k).
 Proof.
@@ -194,29 +237,29 @@ Proof.
   destruct (server_lookup (requested s) (srv_id s)) as [[]|w] eqn:EL.
   2:{ inversion H; subst. split; [|split; [|split]]; intros k Hk; discriminate. }
   apply server_lookup_ok in EL. destruct EL as [EL _].
-  destruct (evaluate Client (cl_id s) (dialled s) (cert_c s) (claim_c s)) as [wc|tc mc] eqn:EC;
-  destruct (evaluate Server (srv_id s) [] (cert_s s) (claim_s s)) as [ws|ts ms] eqn:ES.
+  destruct (handle_hello Client (cl_id s) (dialled s) (pres_c s) (claim_c s)) as [wc|tc mc] eqn:EC;
+  destruct (handle_hello Server (srv_id s) [] (pres_s s) (claim_s s)) as [ws|ts ms] eqn:ES.
   - inversion H; subst. split; [|split; [|split]]; intros k Hk; discriminate.
-  - apply evaluate_bound in ES. destruct ES as (crt & Hc & Hh & Hcl & _ & _ & _).
+  - apply handle_hello_bound in ES. destruct ES as (crt & Hc & Hh & Hcl & _ & _ & _).
     rewrite ak_server in H.
     destruct ms; inversion H; subst oc os; (split; [intros k Hk; discriminate|]);
       (split; [|split; intros k Hk; discriminate]); intros k Hk; try discriminate.
     cbn [ever obs_transient] in Hk. inversion Hk; subst k.
     split; [exists crt; auto|auto].
-  - apply evaluate_bound in EC. destruct EC as (crt & Hc & Hh & Hcl & Htgt & _ & _).
+  - apply handle_hello_bound in EC. destruct EC as (crt & Hc & Hh & Hcl & Htgt & _ & _).
     specialize (Htgt eq_refl). rewrite Htgt in H, Hh, Hcl. rewrite ak_client in H.
     destruct mc; inversion H; subst oc os; (split; [|split; [intros k Hk; discriminate|split; intros k Hk; discriminate]]);
       intros k Hk; try discriminate.
     cbn [ever obs_transient] in Hk. inversion Hk; subst k.
     split; [reflexivity|]. split; [exists crt; auto|auto].
-  - apply evaluate_bound in EC. destruct EC as (crtc & Hcc & Hhc & Hclc & Htgt & _ & _). specialize (Htgt eq_refl).
-    apply evaluate_bound in ES. destruct ES as (crts & Hcs & Hhs & Hcls & _ & _ & _).
+  - apply handle_hello_bound in EC. destruct EC as (crtc & Hcc & Hhc & Hclc & Htgt & _ & _). specialize (Htgt eq_refl).
+    apply handle_hello_bound in ES. destruct ES as (crts & Hcs & Hhs & Hcls & _ & _ & _).
     rewrite Htgt in H, Hhc, Hclc. rewrite ak_client, ak_server in H.
     assert (PC : forall k, Some (dialled s) = Some k ->
-                 k = dialled s /\ proven (cert_c s) k /\ claim_c s = Some k /\ requested s = srv_id s).
+                 k = dialled s /\ proven (leaf (pres_c s)) k /\ claim_c s = Some k /\ requested s = srv_id s).
     { intros k Hk. inversion Hk; subst k. split; [reflexivity|]. split; [exists crtc; auto|auto]. }
     assert (PS : forall k, Some ts = Some k ->
-                 proven (cert_s s) k /\ claim_s s = Some k /\ requested s = srv_id s).
+                 proven (leaf (pres_s s)) k /\ claim_s s = Some k /\ requested s = srv_id s).
     { intros k Hk. inversion Hk; subst k. split; [exists crts; auto|auto]. }
     destruct mc, ms; try destruct (inbound_url_check (dialled s) (srv_id s)) as [[]|w];
       inversion H; subst oc os; cbn [ever final obs_transient obs_connected obs_failed];
@@ -230,28 +273,28 @@ Qed.
 Theorem session_mismatch_no_connection s oc os :
   session s = (oc, os) ->
   (requested s <> srv_id s \/ requested s = [] \/
-   mismatch Client (dialled s) (cert_c s) (claim_c s) \/ mismatch Server [] (cert_s s) (claim_s s)) ->
+   mismatch Client (dialled s) (leaf (pres_c s)) (claim_c s) \/ mismatch Server [] (leaf (pres_s s)) (claim_s s)) ->
   final oc = None /\ final os = None /\
-  (mismatch Client (dialled s) (cert_c s) (claim_c s) -> ever oc = None) /\
-  (mismatch Server [] (cert_s s) (claim_s s) -> ever os = None).
+  (mismatch Client (dialled s) (leaf (pres_c s)) (claim_c s) -> ever oc = None) /\
+  (mismatch Server [] (leaf (pres_s s)) (claim_s s) -> ever os = None).
 Proof.
   unfold Identity.session. intros H Hm.
   destruct (server_lookup (requested s) (srv_id s)) as [[]|w] eqn:EL.
   2:{ inversion H; subst. repeat split; reflexivity. }
   apply server_lookup_ok in EL. destruct EL as [EL1 EL2].
   destruct Hm as [Hm|[Hm|Hm]]; [contradiction|contradiction|].
-  destruct (evaluate Client (cl_id s) (dialled s) (cert_c s) (claim_c s)) as [wc|tc mc] eqn:EC;
-  destruct (evaluate Server (srv_id s) [] (cert_s s) (claim_s s)) as [ws|ts ms] eqn:ES.
+  destruct (handle_hello Client (cl_id s) (dialled s) (pres_c s) (claim_c s)) as [wc|tc mc] eqn:EC;
+  destruct (handle_hello Server (srv_id s) [] (pres_s s) (claim_s s)) as [ws|ts ms] eqn:ES.
   - inversion H; subst. repeat split; reflexivity.
   - destruct ms; inversion H; subst oc os; cbn [ever final obs_transient obs_failed];
       (split; [reflexivity|split; [reflexivity|split; [reflexivity|]]]); intros Hs;
-      destruct (mismatch_rejects Server (srv_id s) [] (cert_s s) (claim_s s) Hs) as (w & Hw); congruence.
+      destruct (mismatch_rejects_hello Server (srv_id s) [] (pres_s s) (claim_s s) Hs) as (w & Hw); congruence.
   - destruct mc; inversion H; subst oc os; cbn [ever final obs_transient obs_failed];
       (split; [reflexivity|split; [reflexivity|split; [|reflexivity]]]); intros Hs;
-      destruct (mismatch_rejects Client (cl_id s) (dialled s) (cert_c s) (claim_c s) Hs) as (w & Hw); congruence.
+      destruct (mismatch_rejects_hello Client (cl_id s) (dialled s) (pres_c s) (claim_c s) Hs) as (w & Hw); congruence.
   - exfalso. destruct Hm as [Hm|Hm].
-    + destruct (mismatch_rejects Client (cl_id s) (dialled s) (cert_c s) (claim_c s) Hm) as (w & Hw). congruence.
-    + destruct (mismatch_rejects Server (srv_id s) [] (cert_s s) (claim_s s) Hm) as (w & Hw). congruence.
+    + destruct (mismatch_rejects_hello Client (cl_id s) (dialled s) (pres_c s) (claim_c s) Hm) as (w & Hw). congruence.
+    + destruct (mismatch_rejects_hello Server (srv_id s) [] (pres_s s) (claim_s s) Hm) as (w & Hw). congruence.
 Qed.
 
 Lemma master_flip a b : master_cmp = CmpGt -> a <> b -> i_am_master a b = negb (i_am_master b a).
@@ -263,8 +306,8 @@ Qed.
 
 (* non-vacuity of the whole: two honest, distinct Tubs end up connected, each under the other's id *)
 Theorem session_honest s ca cb :
-  cert_c s = Some cb -> tubid_of cb = srv_id s -> claim_c s = Some (srv_id s) ->
-  cert_s s = Some ca -> tubid_of ca = cl_id s -> claim_s s = Some (cl_id s) ->
+  leaf (pres_c s) = Some cb -> tubid_of cb = srv_id s -> claim_c s = Some (srv_id s) ->
+  leaf (pres_s s) = Some ca -> tubid_of ca = cl_id s -> claim_s s = Some (cl_id s) ->
   dialled s = srv_id s -> requested s = srv_id s ->
   cl_id s <> srv_id s -> cl_id s <> [] -> srv_id s <> [] ->
   session s = (obs_connected (srv_id s), obs_connected (cl_id s)).
@@ -273,13 +316,13 @@ Proof.
   unfold Identity.session.
   assert (EL : server_lookup (requested s) (srv_id s) = Ok tt).
   { apply server_lookup_ok. rewrite Hr. split; [reflexivity|assumption]. }
-  assert (EC : evaluate Client (cl_id s) (dialled s) (Some cb) (Some (srv_id s))
+  assert (EC : handle_hello Client (cl_id s) (dialled s) (pres_c s) (Some (srv_id s))
                = Accept (srv_id s) (i_am_master (cl_id s) (srv_id s))).
-  { rewrite <- Hhb. apply consistent_accepts; [rewrite Hhb; assumption|]. intros _. rewrite Hd. exact Hhb. }
-  assert (ES : evaluate Server (srv_id s) [] (Some ca) (Some (cl_id s))
+  { rewrite <- Hhb. apply consistent_accepts_hello; [exact Hcc|rewrite Hhb; assumption|]. intros _. rewrite Hd. exact Hhb. }
+  assert (ES : handle_hello Server (srv_id s) [] (pres_s s) (Some (cl_id s))
                = Accept (cl_id s) (i_am_master (srv_id s) (cl_id s))).
-  { rewrite <- Hha. apply consistent_accepts; [rewrite Hha; assumption|discriminate]. }
-  rewrite EL, Hcc, Hclc, Hcs, Hcls, EC, ES. rewrite Hd, ak_client, ak_server.
+  { rewrite <- Hha. apply consistent_accepts_hello; [exact Hcs|rewrite Hha; assumption|discriminate]. }
+  rewrite EL, Hclc, Hcls, EC, ES. rewrite Hd, ak_client, ak_server.
   assert (Hmc : master_cmp = CmpGt) by reflexivity.
   rewrite (master_flip (srv_id s) (cl_id s) Hmc (fun e => Hne (eq_sym e))).
   assert (EU : inbound_url_check (dialled s) (srv_id s) = Ok tt).
@@ -287,6 +330,117 @@ Proof.
   rewrite Hd in EU. rewrite EU.
   destruct (i_am_master (cl_id s) (srv_id s)); reflexivity.
 Qed.
+
+
+(* ------------------------------------------------------------------ a peer that keeps sending *)
+Notation handle_block := (handle_block cert tubid_of).
+Notation drain := (drain cert tubid_of).
+Notation recv_chunk := (recv_chunk cert tubid_of).
+Notation recv_all := (recv_all cert tubid_of).
+
+(* the facts about the phase constants read from the source that safety rests on: an exception never moves the
+   Negotiation INTO the decision-waiting phase, and the identity checks do not run in it *)
+Lemma exc_phase_deciding x : exc_phase x = PhDeciding -> x = PhDeciding.
+Proof. unfold exc_phase, phase_set_by_error_handler. first [intros H; exact H | intros H; discriminate H]. Qed.
+
+Lemma exc_phase_eval : exc_phase phase_during_evaluate_hello <> PhDeciding.
+Proof. intros H. apply (exc_phase_deciding phase_during_evaluate_hello) in H. unfold phase_during_evaluate_hello in H. discriminate H. Qed.
+
+Definition key_ok (r : role) (tgt : id) (p : presented cert) (k : id) : Prop :=
+  exists crt, leaf p = Some crt /\ tubid_of crt = k /\ (r = Client -> k = tgt).
+
+Definition their_ok (p : presented cert) (o : option id) : Prop :=
+  forall t, o = Some t -> exists crt, leaf p = Some crt /\ tubid_of crt = t.
+
+Definition ninv (r : role) (tgt : id) (p : presented cert) (st : nstate) : Prop :=
+  (forall k, In k (n_attached st) -> key_ok r tgt p k) /\
+  their_ok p (n_their st) /\
+  (n_phase st = PhDeciding -> exists t, n_their st = Some t /\ (r = Client -> t = tgt)).
+
+Lemma their_after_ok p claimed old : their_ok p old -> their_ok p (their_after_rejected_evaluation cert tubid_of p claimed old).
+Proof.
+  intros Ho. unfold their_after_rejected_evaluation.
+  destruct (leaf p) as [c|] eqn:El; [|exact Ho]. destruct claimed as [[|x t]|]; try exact Ho.
+  destruct (list_eqb (tubid_of c) (x :: t)) eqn:E; [|exact Ho].
+  apply list_eqb_eq in E. intros t0 Ht0. inversion Ht0; subst t0. exists c. auto.
+Qed.
+
+Lemma handle_block_inv r my tgt p st b st' raised :
+  ninv r tgt p st -> handle_block r my tgt p st b = (st', raised) -> ninv r tgt p st'.
+Proof.
+  intros (Ha & Hb & Hc). unfold Identity.handle_block.
+  destruct (n_phase st) eqn:Eph.
+  - (* ENCRYPTED *)
+    destruct (peer_from_transport cert p) as [c|w].
+    2:{ intros H; inversion H; subst st' raised; clear H. split; [exact Ha|split; [exact Hb|]].
+        cbn [n_phase with_phase]. intros H. apply (exc_phase_deciding PhEncrypted) in H. discriminate H. }
+    destruct b as [claimed|acc| |].
+    + destruct (handle_hello r my tgt p claimed) as [w|t m] eqn:EH.
+      * intros H; inversion H; subst st' raised; clear H. cbn [n_attached n_their n_phase].
+        split; [exact Ha|split; [apply their_after_ok; exact Hb|]]. intros H. contradiction (exc_phase_eval H).
+      * pose proof (hello_key_proven _ _ _ _ _ _ _ EH) as (crt & Hl & Hk & Hkt).
+        apply handle_hello_bound in EH. destruct EH as (crt' & Hl' & Hh & _ & Htgt & _ & _).
+        assert (Hth : their_ok p (Some t)).
+        { intros t0 Ht0. inversion Ht0; subst t0. exists crt'. auto. }
+        destruct m; intros H; inversion H; subst st' raised; clear H; cbn [n_attached n_their n_phase].
+        -- split; [|split; [exact Hth|discriminate]].
+           intros k [Hk0|Hk0]; [|apply Ha; exact Hk0]. subst k. exists crt. auto.
+        -- split; [exact Ha|split; [exact Hth|]]. intros _. exists t. auto.
+    + intros H; inversion H; subst st' raised; clear H. cbn [n_attached n_their n_phase with_phase].
+      split; [exact Ha|split; [exact Hb|]]. intros H. contradiction (exc_phase_eval H).
+    + intros H; inversion H; subst st' raised; clear H. cbn [n_attached n_their n_phase with_phase].
+      split; [exact Ha|split; [exact Hb|]]. intros H. apply (exc_phase_deciding PhEncrypted) in H. discriminate H.
+    + intros H; inversion H; subst st' raised; clear H. cbn [n_attached n_their n_phase with_phase].
+      split; [exact Ha|split; [exact Hb|]]. intros H. apply (exc_phase_deciding PhEncrypted) in H. discriminate H.
+  - (* DECIDING *)
+    destruct (Hc eq_refl) as (t0 & Ht0 & Htgt).
+    assert (Keep : ninv r tgt p (with_phase st (exc_phase PhDeciding))).
+    { split; [exact Ha|split; [exact Hb|]]. intros _. exists t0. auto. }
+    rewrite Ht0.
+    destruct b as [claimed|[|]| |]; try (intros H; inversion H; subst st' raised; clear H; exact Keep).
+    intros H; inversion H; subst st' raised; clear H. cbn [n_attached n_their n_phase].
+    pose proof Hb as Hb'. rewrite Ht0 in Hb'.
+    split; [|split; [exact Hb'|discriminate]].
+    intros k [Hk0|Hk0]; [|apply Ha; exact Hk0]. subst k.
+    destruct (Hb _ Ht0) as (crt & Hl & Hh). exists crt. split; [exact Hl|].
+    destruct r; cbn [is_client].
+    + specialize (Htgt eq_refl). subst t0. rewrite ak_client. auto.
+    + rewrite ak_server. split; [exact Hh|discriminate].
+  - intros H; inversion H; subst st' raised; clear H. split; [exact Ha|split; [exact Hb|]]. rewrite Eph. discriminate.
+  - intros H; inversion H; subst st' raised; clear H. split; [exact Ha|split; [exact Hb|]]. rewrite Eph. discriminate.
+Qed.
+
+Lemma with_buf_inv r tgt p st b : ninv r tgt p st -> ninv r tgt p (with_buf st b).
+Proof. intros H. exact H. Qed.
+
+Lemma drain_inv r my tgt p buf : forall st, ninv r tgt p st -> ninv r tgt p (drain r my tgt p st buf).
+Proof.
+  induction buf as [|b rest IH]; intros st Hinv; cbn [Identity.drain]; [apply with_buf_inv; exact Hinv|].
+  destruct (handle_block r my tgt p st b) as [st' raised] eqn:EB.
+  pose proof (handle_block_inv _ _ _ _ _ _ _ _ Hinv EB) as Hinv'.
+  destruct (n_phase st); try (apply with_buf_inv; exact Hinv);
+    (destruct raised; [apply with_buf_inv; exact Hinv'|apply IH; exact Hinv']).
+Qed.
+
+Lemma recv_chunk_inv r my tgt p st chunk : ninv r tgt p st -> ninv r tgt p (recv_chunk r my tgt p st chunk).
+Proof.
+  intros Hinv. unfold Identity.recv_chunk. destruct (n_phase st); try exact Hinv; apply drain_inv; exact Hinv.
+Qed.
+
+(* whatever header blocks an arbitrary peer sends, in whatever chunking, before and after any of them was rejected:
+   every key ever handed to Tub.brokerAttached is the hash of the LEAF certificate of that transport, and on a client
+   it is the dialled id *)
+Theorem recv_attach_proven r my tgt p chunks k :
+  In k (n_attached (recv_all r my tgt p chunks)) ->
+  exists crt, leaf p = Some crt /\ tubid_of crt = k /\ (r = Client -> k = tgt).
+Proof.
+  assert (G : forall st, ninv r tgt p st -> ninv r tgt p (fold_left (recv_chunk r my tgt p) chunks st)).
+  { induction chunks as [|c cs IH]; intros st Hst; cbn [fold_left]; [exact Hst|]. apply IH. apply recv_chunk_inv. exact Hst. }
+  assert (I0 : ninv r tgt p n_init).
+  { split; [intros k0 []|split; [intros t Ht; discriminate Ht|discriminate]]. }
+  intros Hk. destruct (G _ I0) as (Ha & _ & _). exact (Ha _ Hk).
+Qed.
+
 
 (* ------------------------------------------------------------------ inbound references *)
 Theorem inbound_url_rule k url_id : accept_inbound_ref k url_id = true <-> url_id = k.
@@ -348,9 +502,9 @@ Qed.
 Lemma step_ok my t e : table_ok my t -> table_ok my (step my t e).
 Proof.
   intros Hok. destruct e as [r tgt c claimed arrives dropped|k|]; cbn [Identity.step].
-  - destruct (evaluate r my tgt c claimed) as [w|t' m] eqn:E; [exact Hok|].
+  - destruct (handle_hello r my tgt c claimed) as [w|t' m] eqn:E; [exact Hok|].
     destruct (m || arrives); [|exact Hok].
-    apply attach_key_proven in E. destruct E as (crt & Hc & Hh & _).
+    apply hello_key_proven in E. destruct E as (crt & Hc & Hh & _).
     apply broker_attached_ok.
     + destruct dropped; [apply tbl_remove_ok|]; exact Hok.
     + right. cbn [fst snd conn_loop conn_cert]. split; [reflexivity|]. exists crt. auto.
@@ -401,6 +555,7 @@ End IdentityProofs.
 
 (* ------------------------------------------------------------------ non-vacuity (concrete certificates = numbers) *)
 Definition ex_tubid (c : Z) : id := [c; c + 1].
+Definition pz (l : option Z) (e : list Z) : presented Z := {| leaf := l; extras := e |}.
 
 Example ex_accept_server :
   evaluate Z ex_tubid Server [120] [] (Some 97) (Some [97; 98]) = Accept [97; 98] true.
@@ -424,24 +579,33 @@ Proof. vm_compute. reflexivity. Qed.
 
 Example ex_session_honest :
   session Z ex_tubid {| cl_id := [50; 51]; dialled := [97; 98]; requested := [97; 98]; srv_id := [97; 98];
-                        cert_c := Some 97; claim_c := Some [97; 98]; cert_s := Some 50; claim_s := Some [50; 51] |}
+                        pres_c := pz (Some 97) []; claim_c := Some [97; 98]; pres_s := pz (Some 50) []; claim_s := Some [50; 51] |}
   = (obs_connected [97; 98], obs_connected [50; 51]).
 Proof. vm_compute. reflexivity. Qed.
 
 (* a server that redirects the GET and proves ANOTHER identity than the dialled one *)
 Example ex_session_wrong_tub :
   session Z ex_tubid {| cl_id := [50; 51]; dialled := [97; 98]; requested := [99; 100]; srv_id := [99; 100];
-                        cert_c := Some 99; claim_c := Some [99; 100]; cert_s := Some 50; claim_s := Some [50; 51] |}
+                        pres_c := pz (Some 99) []; claim_c := Some [99; 100]; pres_s := pz (Some 50) []; claim_s := Some [50; 51] |}
   = (obs_failed "BananaError", obs_transient [50; 51]).
 Proof. vm_compute. reflexivity. Qed.
 
 Example ex_table :
   run Z ex_tubid [50; 51]
-      [Negotiated Z Client [97; 98] (Some 97) (Some [97; 98]) true false;
-       Negotiated Z Server [] (Some 99) (Some [97; 98]) true false;       (* impostor: rejected *)
-       Negotiated Z Server [] (Some 20) (Some [20; 21]) false false;      (* we decide: attached at once *)
+      [Negotiated Z Client [97; 98] (pz (Some 97) []) (Some [97; 98]) true false;
+       Negotiated Z Server [] (pz (Some 99) [97]) (Some [97; 98]) true false;       (* impostor showing the victim's public certificate as an extra: rejected *)
+       Negotiated Z Server [] (pz (Some 20) []) (Some [20; 21]) false false;      (* we decide: attached at once *)
        LoopbackRequested Z;
        Detached Z [97; 98]]
   = [([50; 51], {| conn_cert := None; conn_loop := true |});
      ([20; 21], {| conn_cert := Some 20; conn_loop := false |})].
+Proof. vm_compute. reflexivity. Qed.
+
+(* an intruder that authenticates with its own certificate 99, appends Tub [97;98]'s public certificate and claims it *)
+Example ex_reject_extra_chain :
+  handle_hello Z ex_tubid Client [50] [97; 98] (pz (Some 99) [97]) (Some [97; 98]) = Reject "BananaError".
+Proof. vm_compute. reflexivity. Qed.
+
+Example ex_reject_no_leaf :
+  handle_hello Z ex_tubid Server [50] [] (pz None [97]) (Some [97; 98]) = Reject "CertificateError".
 Proof. vm_compute. reflexivity. Qed.
